@@ -116,6 +116,18 @@ func c17Histories() []c17History {
 		hs = append(hs, c17History{name: "reload/" + tag + "/f1-f2-f1-f3-f1", xmls: []string{fam[1], fam[2], fam[1], fam[3], fam[1]}, viaFile: viaFile})
 		hs = append(hs, c17History{name: "reload/" + tag + "/edited-file", xmls: []string{fam[0], fam[1], grown}, viaFile: viaFile, samePathAs: map[int]int{2: 1}})
 	}
+	// one application id declared under two types by successive loads (as NASREQ id 1 is both an
+	// Auth- and an Acct-Application-Id): a lookup by (id, type) that resolved keeps resolving
+	{
+		typed := func(typ, name string, code int) string {
+			return fmt.Sprintf(`<?xml version="1.0" encoding="UTF-8"?><diameter><application id="9100" type="%s" name="%s"><avp name="%s-Thing" code="%d" must="M"><data type="Unsigned32"/></avp></application></diameter>`, typ, name, name, code)
+		}
+		au, ac := typed("auth", "Typed-Auth", 9101), typed("acct", "Typed-Acct", 9102)
+		hs = append(hs, c17History{name: "retyped-application/auth-acct", xmls: []string{au, ac}})
+		hs = append(hs, c17History{name: "retyped-application/acct-auth", xmls: []string{ac, au}})
+		hs = append(hs, c17History{name: "retyped-application/auth-acct-auth", xmls: []string{au, ac, au}})
+		hs = append(hs, c17History{name: "retyped-application/base-auth-acct", xmls: []string{base[0], au, ac}})
+	}
 	// one file with several <application> elements: bare re-declarations of already loaded
 	// applications (as one writes to name a dependency) before, between and after populated ones
 	multi := func(order string) string {
@@ -482,7 +494,7 @@ func runC17(ctx *ev.Ctx) {
 	}
 	ctx.Set("lookups_compared", total)
 	ctx.AddEvals(total, total)
-	ctx.Rule = "loading histories: a dictionary loaded again after another one redefined its AVPs and a file edited and reloaded from the same path (through Load and through LoadFile with temporary files); dictionary files with several application elements (bare re-declarations of loaded applications before / between / after populated ones); the embedded dictionaries (extracted from diam/dict/default.go) in default order, every rotation and every adjacent swap; a generated family of four 3-AVP dictionaries that redefine each other's codes and names across application 0 / 4 / 16777251 and vendor variants, in all 24 orders, alone and on top of the base dictionary. After every Load - and after Loads that are rejected (a re-declared command, an undeclarable data type, truncated XML) following the first and the last dictionary of each history: FindAVPWithVendor by uint32 code, by int code and by name, FindAVP by int, FindCommand and App(id[,type]) for every application (loaded, children of the parent map, 0, an unrelated id) x every code / name present anywhere plus +-1 neighbours x vendor {declared, 0, another, wildcard}, plus every code looked up under two different vendor ids directly after one another, (the key space is that of ALL dictionaries of the history, so keys are also looked up while still undefined) are compared with the reference model, and everything resolvable before the Load must still be. Distinct by (history, query)."
+	ctx.Rule = "loading histories: a dictionary loaded again after another one redefined its AVPs and a file edited and reloaded from the same path (through Load and through LoadFile with temporary files); one application id declared under two types by successive loads; dictionary files with several application elements (bare re-declarations of loaded applications before / between / after populated ones); the embedded dictionaries (extracted from diam/dict/default.go) in default order, every rotation and every adjacent swap; a generated family of four 3-AVP dictionaries that redefine each other's codes and names across application 0 / 4 / 16777251 and vendor variants, in all 24 orders, alone and on top of the base dictionary. After every Load - and after Loads that are rejected (a re-declared command, an undeclarable data type, truncated XML) following the first and the last dictionary of each history: FindAVPWithVendor by uint32 code, by int code and by name, FindAVP by int, FindCommand and App(id[,type]) for every application (loaded, children of the parent map, 0, an unrelated id) x every code / name present anywhere plus +-1 neighbours x vendor {declared, 0, another, wildcard}, plus every code looked up under two different vendor ids directly after one another, (the key space is that of ALL dictionaries of the history, so keys are also looked up while still undefined) are compared with the reference model, and everything resolvable before the Load must still be. Distinct by (history, query)."
 	ctx.Assume = []string{"reference model refdict: application -> documented parents (16777251->4, 16777238->4, 4->1) -> base; exact vendor or wildcard; last load wins"}
 }
 
